@@ -41,6 +41,15 @@ type c08Stmt struct {
 	Idx   ssa.Value       // the index
 	Birth *ssa.BasicBlock // the block in which this statement comes to life (each execution of it is another statement)
 	Local *ssa.Alloc      // the local copy, if the statement is one
+	Kept  []c08Kept       // further local variables the copy was copied on to (the value consumed is the last of them)
+}
+
+// c08Kept: a local variable (declared anywhere, e.g. before the loop) whose only assignment copies the whole value of
+// a local copy of a statement: `selected = policyStatement`.
+type c08Kept struct {
+	D     string     // its rendering
+	Local *ssa.Alloc // the variable
+	Copy  *ssa.Store // the assignment
 }
 
 func c08StmtOf(fn *ssa.Function, v ssa.Value) *c08Stmt {
@@ -61,6 +70,18 @@ func c08StmtOf(fn *ssa.Function, v ssa.Value) *c08Stmt {
 			ld, ok := st.Val.(*ssa.UnOp)
 			if !ok || ld.Op != token.MUL {
 				return nil
+			}
+			if src, isLocal := ld.X.(*ssa.Alloc); isLocal && src != x && i < 3 {
+				// a copy of a local copy, kept in another variable: the statement the first copy denotes, as long as the
+				// copying assignment is executed between the moment that statement comes to life and the moment the
+				// variable is consumed (stmtAlt checks it: otherwise the variable may still hold an older statement)
+				inner := c08StmtOf(fn, src)
+				if inner == nil || inner.Local == nil || len(inner.Kept) > 0 {
+					return nil // (a copy of a kept copy is not followed: the order of the two assignments would matter)
+				}
+				out := *inner
+				out.Kept = append(append([]c08Kept(nil), inner.Kept...), c08Kept{D: desc(x), Local: x, Copy: st})
+				return &out
 			}
 			ia, ok := ld.X.(*ssa.IndexAddr)
 			if !ok {
@@ -105,9 +126,14 @@ func c08WholeStore(x *ssa.Alloc) *ssa.Store {
 // c08Facts: the facts that hold whenever control enters block `at` after the most recent execution of block `birth`:
 // the labels of the branch edges every path from birth to at passes that does not re-enter birth (facts of one
 // iteration when birth lies in a loop). nil if `at` cannot be reached that way.
-// On top of what the engine composes (boolean module helpers) a test `helper(args) == k` of a module helper that
-// answers with enumeration constants contributes the facts of the helper's `return k` exits (c08EnumFacts).
+// On top of what the engine composes (boolean module helpers), a must-pass edge that tests a value against a constant
+// — the answer of a module helper that answers with enumeration constants, a variable in which such an answer or a
+// flag is held — contributes what is known when the value is that constant (c08EdgeFacts).
 func c08Facts(w *World, fn *ssa.Function, birth, at *ssa.BasicBlock) map[string]string {
+	return c08FactsD(w, fn, birth, at, 0)
+}
+
+func c08FactsD(w *World, fn *ssa.Function, birth, at *ssa.BasicBlock, depth int) map[string]string {
 	fi := w.Info(fn)
 	out := map[string]string{}
 	if birth == at {
@@ -123,6 +149,9 @@ func c08Facts(w *World, fn *ssa.Function, birth, at *ssa.BasicBlock) map[string]
 	for k, v := range l {
 		out[k] = v
 	}
+	if depth > 2 {
+		return out
+	}
 	ss := []state{{birth.Index, 0, -1}}
 	for _, b := range fn.Blocks {
 		iff, isIf := blockTerm(b).(*ssa.If)
@@ -130,11 +159,7 @@ func c08Facts(w *World, fn *ssa.Function, birth, at *ssa.BasicBlock) map[string]
 			continue
 		}
 		for j := 0; j < 2; j++ {
-			if cut[edgeKey{b.Index, j}] {
-				continue
-			}
-			ef := c08EnumFacts(w, iff.Cond, j == 0)
-			if len(ef) == 0 {
+			if cut[edgeKey{b.Index, j}] || !c08TestsHeldValue(iff.Cond) {
 				continue
 			}
 			c2 := map[edgeKey]bool{{b.Index, j}: true}
@@ -144,7 +169,7 @@ func c08Facts(w *World, fn *ssa.Function, birth, at *ssa.BasicBlock) map[string]
 			if fi.reachHit(ss, c2, targets) {
 				continue // not a must-pass edge
 			}
-			for k, v := range ef {
+			for k, v := range c08EdgeFacts(w, fn, birth, b, iff.Cond, j == 0, depth) {
 				if _, has := out[k]; !has {
 					out[k] = v
 				}
@@ -154,72 +179,378 @@ func c08Facts(w *World, fn *ssa.Function, birth, at *ssa.BasicBlock) map[string]
 	return out
 }
 
-// c08EnumFacts: cond evaluating to truth states `g(args) == k` for a module function g with one integer-kinded
-// result that returns constants only. Then g left through one of its `return k` exits, so the facts common to those
-// exits hold, with g's parameters replaced by the arguments (the same substitution the engine applies to boolean helpers).
-func c08EnumFacts(w *World, cond ssa.Value, truth bool) map[string]string {
+// c08EnumConst: an integer or string constant (a value of an enumeration type).
+func c08EnumConst(k *ssa.Const) bool {
+	return k != nil && k.Value != nil && (k.Value.Kind() == constant.Int || k.Value.Kind() == constant.String)
+}
+
+// c08HeldTest: cond is a test of a value against a constant: `x == k` / `x != k` with k an enumeration constant, or a
+// boolean variable / one of several results of a call x itself (k = true), under any number of negations. The value,
+// the constant, and whether cond being true states equality.
+func c08HeldTest(cond ssa.Value) (x ssa.Value, k constant.Value, eq bool, ok bool) {
+	eq = true
 	for {
-		u, ok := cond.(*ssa.UnOp)
-		if !ok || u.Op != token.NOT {
+		u, isNot := cond.(*ssa.UnOp)
+		if !isNot || u.Op != token.NOT {
 			break
 		}
-		cond, truth = u.X, !truth
+		cond, eq = u.X, !eq
 	}
-	bo, ok := cond.(*ssa.BinOp)
-	if !ok || (bo.Op != token.EQL && bo.Op != token.NEQ) {
-		return nil
+	switch c := cond.(type) {
+	case *ssa.Phi, *ssa.Extract:
+		if bt, isB := c.Type().Underlying().(*types.Basic); isB && bt.Info()&types.IsBoolean != 0 {
+			return c, constant.MakeBool(true), eq, true
+		}
+	case *ssa.BinOp:
+		if c.Op != token.EQL && c.Op != token.NEQ {
+			return nil, nil, false, false
+		}
+		a, b := c.X, c.Y
+		if _, isK := a.(*ssa.Const); isK {
+			a, b = b, a
+		}
+		kc, isK := b.(*ssa.Const)
+		if !isK || !c08EnumConst(kc) {
+			return nil, nil, false, false
+		}
+		return a, kc.Value, eq == (c.Op == token.EQL), true
 	}
-	if (bo.Op == token.EQL) != truth {
-		return nil // the edge states an inequality
+	return nil, nil, false, false
+}
+
+// c08TestsHeldValue: cond tests the answer of a call or a variable (phi) against a constant (cheap pre-filter).
+func c08TestsHeldValue(cond ssa.Value) bool {
+	x, _, _, ok := c08HeldTest(cond)
+	if !ok {
+		return false
 	}
-	a, b := bo.X, bo.Y
-	if _, isK := a.(*ssa.Const); isK {
-		a, b = b, a
+	switch x.(type) {
+	case *ssa.Call, *ssa.Phi, *ssa.Extract:
+		return true
 	}
-	call, ok1 := a.(*ssa.Call)
-	kc, ok2 := b.(*ssa.Const)
-	if !ok1 || !ok2 || kc.Value == nil || kc.Value.Kind() != constant.Int {
-		return nil
-	}
-	g := staticCallee(call)
-	if g == nil || g.Blocks == nil || !w.IsProductFn(g) || g.Signature.Results().Len() != 1 || len(call.Call.Args) != len(g.Params) {
-		return nil
-	}
-	if bt, ok := g.Signature.Results().At(0).Type().Underlying().(*types.Basic); !ok || bt.Info()&types.IsInteger == 0 {
-		return nil
-	}
-	k, exact := constant.Int64Val(kc.Value)
-	if !exact {
-		return nil
-	}
-	facts, ok := c08ConstReturnFacts(w, g, k)
+	return false
+}
+
+// c08EdgeFacts: what is known on the edge of block b (of fn) on which cond evaluates to truth, beyond the label of the
+// edge: cond states `x == k` for the answer x of a module helper that answers with enumeration constants, for a
+// variable x that holds such an answer or constants (`m := none; …; m = exact; …; switch m`), or for a flag
+// (`found := false; …; found = true; …; if found`). See c08ValueIsFacts.
+func c08EdgeFacts(w *World, fn *ssa.Function, birth, b *ssa.BasicBlock, cond ssa.Value, truth bool, depth int) map[string]string {
+	x, k, eq, ok := c08HeldTest(cond)
 	if !ok {
 		return nil
+	}
+	if eq != truth {
+		// the edge states an inequality: it says something for a flag only (not true = false)
+		if k.Kind() != constant.Bool {
+			return nil
+		}
+		k = constant.MakeBool(!constant.BoolVal(k))
+	}
+	facts, _ := c08ValueIsFacts(w, fn, birth, x, b, k, false, depth)
+	return facts
+}
+
+// c08CallAnswerFacts: the facts that hold (in the caller's frame) when result #idx of the call of a module function — a
+// function, a method, a closure made in the caller — was k: an enumeration-kinded result, or one of several results
+// that is a flag (a single boolean result is composed by the engine). understood=false if the callee is not such a
+// function or cannot be followed; nil facts with understood=true: the callee never answers k.
+// The callee's parameters are replaced by the arguments; the variables a closure captures by their only value in the
+// caller's frame (c08CapturedValue; a fact about a captured variable that may change is dropped).
+func c08CallAnswerFacts(w *World, call *ssa.Call, idx int, k constant.Value, depth int) (facts map[string]string, understood bool) {
+	g := staticCallee(call)
+	if g == nil || g.Blocks == nil || !w.IsProductFn(g) || idx >= g.Signature.Results().Len() || len(call.Call.Args) != len(g.Params) || depth > 2 {
+		return nil, false
+	}
+	bt, ok := g.Signature.Results().At(idx).Type().Underlying().(*types.Basic)
+	if !ok {
+		return nil, false
+	}
+	switch k.Kind() {
+	case constant.Int:
+		ok = bt.Info()&types.IsInteger != 0
+	case constant.String:
+		ok = bt.Info()&types.IsString != 0
+	case constant.Bool:
+		ok = bt.Info()&types.IsBoolean != 0 && g.Signature.Results().Len() > 1
+	default:
+		ok = false
+	}
+	if !ok {
+		return nil, false
+	}
+	inG, ok := c08ConstReturnFacts(w, g, idx, k, depth)
+	if !ok || inG == nil {
+		return nil, ok
 	}
 	var names, descs []string
 	for i, p := range g.Params {
 		names = append(names, p.Name())
 		descs = append(descs, desc(call.Call.Args[i]))
 	}
-	out := map[string]string{}
-	for l, site := range facts {
-		out[substParams(l, names, descs)] = site
+	var binds []ssa.Value
+	if mc, isMC := call.Call.Value.(*ssa.MakeClosure); isMC {
+		binds = mc.Bindings
 	}
-	return out
+	facts = map[string]string{}
+next:
+	for l, site := range inG {
+		l = substParams(l, names, descs)
+		for i, fv := range g.FreeVars {
+			tok := "free:" + fv.Name()
+			if !strings.Contains(l, tok) {
+				continue
+			}
+			if i >= len(binds) {
+				continue next
+			}
+			if _, byRef := binds[i].(*ssa.Alloc); !byRef {
+				l = c08SubstToken(l, tok, desc(binds[i]))
+				continue
+			}
+			d, ok := c08CapturedValue(binds[i])
+			if !ok {
+				continue next
+			}
+			l = c08SubstToken(l, tok, d)
+		}
+		facts[l] = site
+		if tw, ok := labelTwin(l); ok {
+			facts[tw] = site
+		}
+	}
+	return facts, true
 }
 
-// c08ConstReturnFacts: the facts common to every exit of g that returns the constant k (in g's frame). ok=false if
-// some exit returns a value that is not a constant (it might equal k on a path the facts do not describe).
-func c08ConstReturnFacts(w *World, g *ssa.Function, k int64) (map[string]string, bool) {
-	fi := w.Info(g)
-	var out map[string]string
+// c08RetLeaf: one way in which a value comes about: V (a constant, the answer of a call, a condition) is assigned — to
+// the place where it is consumed directly, or to a variable that is consumed later — at the end of block At.
+// Direct: the consumer follows at once (V is the operand itself, or an edge of a phi of the consuming block).
+type c08RetLeaf struct {
+	V      ssa.Value
+	At     *ssa.BasicBlock
+	Direct bool
+}
+
+// c08RetLeaves: the assignments that can give v (consumed in block at) its value, followed through the variables (phis)
+// it is held in. A variable carried round a loop keeps the value of the assignment executed last.
+// ok=false if a variable on the way may still hold a value from before the most recent execution of block birth: each
+// phi must lie in a block strictly dominated by birth (it is then re-evaluated on every way from birth to the
+// consumer, from values that are themselves younger than birth or — recursively — such phis), and each assignment
+// must lie in a block dominated by birth. (birth = the entry block: everything in the call is younger.)
+func c08RetLeaves(v ssa.Value, at, birth *ssa.BasicBlock, direct bool, seen map[*ssa.Phi]bool) ([]c08RetLeaf, bool) {
+	p, isPhi := v.(*ssa.Phi)
+	if !isPhi {
+		if birth.Index != 0 && !birth.Dominates(at) {
+			return nil, false
+		}
+		return []c08RetLeaf{{v, at, direct}}, true
+	}
+	if seen[p] {
+		return nil, true
+	}
+	seen[p] = true
+	if birth.Index != 0 && (p.Block() == birth || !birth.Dominates(p.Block())) {
+		return nil, false
+	}
+	var out []c08RetLeaf
+	for i, e := range p.Edges {
+		if e == v {
+			continue
+		}
+		sub, ok := c08RetLeaves(e, p.Block().Preds[i], birth, direct && p.Block() == at, seen)
+		if !ok {
+			return nil, false
+		}
+		out = append(out, sub...)
+	}
+	return out, true
+}
+
+// c08ReadsOnly: fn writes to nothing that is reached from its parameters (no store through them, nothing reached from
+// them handed to a function that writes: c08ParamUnwritten); a closure only reads the variables it captures, and
+// these hold values without references (a string, a number: nothing can be written through them).
+func c08ReadsOnly(w *World, fn *ssa.Function) bool {
+	for _, fv := range fn.FreeVars {
+		pt, isPtr := fv.Type().Underlying().(*types.Pointer)
+		if !isPtr || hasRefComponents(pt.Elem(), 0) || fv.Referrers() == nil {
+			return false
+		}
+		for _, r := range *fv.Referrers() {
+			switch x := r.(type) {
+			case *ssa.UnOp:
+				if x.Op != token.MUL {
+					return false
+				}
+			case *ssa.DebugRef:
+			default:
+				return false
+			}
+		}
+	}
+	for _, p := range fn.Params {
+		if hasRefComponents(p.Type(), 0) && c08ParamUnwritten(w, fn, p, 0, map[*ssa.Function]bool{}) != "" {
+			return false
+		}
+	}
+	return true
+}
+
+// c08ValueIsFacts: the facts common to every way in which value v, consumed in block `at` of fn, can be the constant k
+// — facts that held at some moment after the most recent execution of block birth. nil facts with understood=true: v
+// is never k. understood=false if v can come about in a way that is not followed (it might be k on a path the facts
+// do not describe).
+//
+// The value may be a constant on the spot, be held in a result variable until a single return, be accumulated in a
+// variable over a loop (`m := none; for … { if … { m = exact } }; return m`), be a flag set on the way, or be the answer
+// of a module function that answers with enumeration constants (`return classify(x)`): v is followed through the
+// variables that hold it (phis) to the assignments (c08RetLeaves). If v is k, the assignment executed last was one
+// that assigns k, so control was at the end of that assignment's block at that moment and had passed every branch edge
+// that all paths from birth to that block pass (c08FactsD — which applies the same reasoning to the tests on that way);
+// for a boolean assigned from a condition (`found = a == b`), that condition held. These facts are about fn's
+// arguments, the statement that came to life in birth and what is reached from them (labels about anything else never
+// match a required fact); when the consumer does not follow at once they are still true when v is consumed because fn
+// writes to nothing reached from its parameters (c08ReadsOnly) and a local copy of a statement is never written
+// (c08WholeStore).
+// withLocal: include the facts for reaching the assignment when it sits in the consuming block itself (the caller of
+// c08EdgeFacts has them already).
+func c08ValueIsFacts(w *World, fn *ssa.Function, birth *ssa.BasicBlock, v ssa.Value, at *ssa.BasicBlock, k constant.Value, withLocal bool, depth int) (facts map[string]string, understood bool) {
+	if depth > 3 {
+		return nil, false
+	}
+	leaves, ok := c08RetLeaves(v, at, birth, true, map[*ssa.Phi]bool{})
+	if !ok {
+		return nil, false
+	}
+	fi := w.Info(fn)
 	meet := func(l map[string]string) {
-		if out == nil {
-			out = map[string]string{}
+		if facts == nil {
+			facts = map[string]string{}
 			for a, b := range l {
-				out[a] = b
+				facts[a] = b
 			}
 			return
+		}
+		for a := range facts {
+			if _, ok := l[a]; !ok {
+				delete(facts, a)
+			}
+		}
+	}
+	readsOnly := -1
+	for _, lf := range leaves {
+		extra := map[string]string{}
+		switch x := lf.V.(type) {
+		case *ssa.Const:
+			if x.Value == nil || x.Value.Kind() != k.Kind() {
+				return nil, false
+			}
+			if !constant.Compare(x.Value, token.EQL, k) {
+				continue
+			}
+		case *ssa.Call:
+			if k.Kind() == constant.Bool {
+				// a flag that holds the answer of a predicate: that answer, with what the engine composes for it
+				l := condLabel(x, constant.BoolVal(k))
+				extra[l] = w.InstrPos(x)
+				if comp := fi.composeCond(x, constant.BoolVal(k)); comp != nil {
+					for cl, st := range comp.Checked {
+						extra[cl] = st
+					}
+				}
+				break
+			}
+			// the answer of another classifier, handed on: what that one passes before it answers k
+			sub, und := c08CallAnswerFacts(w, x, 0, k, depth+1)
+			if !und {
+				return nil, false
+			}
+			if sub == nil {
+				continue // that classifier never answers k
+			}
+			extra = sub
+		case *ssa.Extract:
+			// one of several results of a classifier (`wildcard, exact := classify(x)`)
+			call, isCall := x.Tuple.(*ssa.Call)
+			if !isCall {
+				return nil, false
+			}
+			sub, und := c08CallAnswerFacts(w, call, x.Index, k, depth+1)
+			if !und {
+				return nil, false
+			}
+			if sub == nil {
+				continue
+			}
+			extra = sub
+		case *ssa.BinOp, *ssa.UnOp:
+			// a flag assigned from a condition
+			if k.Kind() != constant.Bool {
+				return nil, false
+			}
+			if bt, isB := lf.V.Type().Underlying().(*types.Basic); !isB || bt.Info()&types.IsBoolean == 0 {
+				return nil, false
+			}
+			extra[condLabel(lf.V, constant.BoolVal(k))] = fi.blockPos(lf.At)
+		default:
+			return nil, false
+		}
+		for l, st := range extra {
+			if tw, ok := labelTwin(l); ok {
+				if _, has := extra[tw]; !has {
+					extra[tw] = st
+				}
+			}
+		}
+		if !lf.Direct {
+			if readsOnly < 0 {
+				readsOnly = 0
+				if c08ReadsOnly(w, fn) {
+					readsOnly = 1
+				}
+			}
+			if readsOnly == 0 {
+				return nil, false
+			}
+		}
+		if withLocal || lf.At != at {
+			l := c08FactsD(w, fn, birth, lf.At, depth+1)
+			if l == nil {
+				continue // the assignment cannot be reached
+			}
+			for a, s := range l {
+				if _, has := extra[a]; !has {
+					extra[a] = s
+				}
+			}
+		}
+		meet(extra)
+	}
+	return facts, true
+}
+
+// c08ConstReturnFacts: the facts common to every way in which result #idx of g can be the constant k (in g's frame);
+// nil if it never is. ok=false if g can answer with a value that is not understood (it might equal k on a path the facts
+// do not describe). Every return is judged by c08ValueIsFacts with the whole call as the period of observation.
+func c08ConstReturnFacts(w *World, g *ssa.Function, idx int, k constant.Value, depth int) (map[string]string, bool) {
+	var out map[string]string
+	for _, b := range g.Blocks {
+		r, ok := blockTerm(b).(*ssa.Return)
+		if !ok {
+			continue
+		}
+		if idx >= len(r.Results) {
+			return nil, false
+		}
+		l, understood := c08ValueIsFacts(w, g, g.Blocks[0], r.Results[idx], b, k, true, depth)
+		if !understood {
+			return nil, false
+		}
+		if l == nil {
+			continue
+		}
+		if out == nil {
+			out = l
+			continue
 		}
 		for a := range out {
 			if _, ok := l[a]; !ok {
@@ -227,55 +558,7 @@ func c08ConstReturnFacts(w *World, g *ssa.Function, k int64) (map[string]string,
 			}
 		}
 	}
-	factsAt := func(b *ssa.BasicBlock) (map[string]string, bool) {
-		if b.Index == 0 {
-			return map[string]string{}, true
-		}
-		return fi.mustPassBetween([]int{0}, map[int]bool{b.Index: true})
-	}
-	isK := func(v ssa.Value) (bool, bool) { // (is the constant k, is a constant)
-		c, ok := v.(*ssa.Const)
-		if !ok || c.Value == nil || c.Value.Kind() != constant.Int {
-			return false, false
-		}
-		n, exact := constant.Int64Val(c.Value)
-		return exact && n == k, exact
-	}
-	for _, b := range g.Blocks {
-		r, ok := blockTerm(b).(*ssa.Return)
-		if !ok {
-			continue
-		}
-		if len(r.Results) != 1 {
-			return nil, false
-		}
-		if p, isPhi := r.Results[0].(*ssa.Phi); isPhi && p.Block() == b {
-			for i, e := range p.Edges {
-				same, konst := isK(e)
-				if !konst {
-					return nil, false
-				}
-				if !same {
-					continue
-				}
-				if l, reachable := factsAt(b.Preds[i]); reachable {
-					meet(l)
-				}
-			}
-			continue
-		}
-		same, konst := isK(r.Results[0])
-		if !konst {
-			return nil, false
-		}
-		if !same {
-			continue
-		}
-		if l, reachable := factsAt(b); reachable {
-			meet(l)
-		}
-	}
-	return out, out != nil
+	return out, true
 }
 
 // c08SubstToken replaces the whole identifier token tok ("free:name") in label by repl.
@@ -476,18 +759,52 @@ func (r *c08Resolver) stmtAlt(fn *ssa.Function, S *c08Stmt, at *ssa.BasicBlock) 
 	alt := c08Alt{Doc: desc(S.Slice), Facts: map[string]string{}, Site: w.Info(fn).blockPos(at)}
 	// facts are matched by the rendering of the statement: a second local variable that renders alike (a shadowing
 	// variable of the same name and type) would make a fact about one pass for a fact about the other
+	names := []string{S.D}
+	locals := []*ssa.Alloc{S.Local}
+	for _, k := range S.Kept {
+		names = append(names, k.D)
+		locals = append(locals, k.Local)
+	}
 	if S.Local != nil {
 		for _, b := range fn.Blocks {
 			for _, in := range b.Instrs {
-				if al, ok := in.(*ssa.Alloc); ok && al != S.Local && desc(al) == S.D {
-					alt.Other = "two local statements render alike (" + S.D + "): facts cannot be attributed"
-					return alt
+				al, ok := in.(*ssa.Alloc)
+				if !ok {
+					continue
+				}
+				for i, d := range names {
+					if al != locals[i] && desc(al) == d {
+						alt.Other = "two local statements render alike (" + d + "): facts cannot be attributed"
+						return alt
+					}
 				}
 			}
 		}
 	}
+	// A variable the copy was copied on to holds this very statement when it is consumed in `at` only if the copying
+	// assignment was executed since the statement came to life: its block lies on every way from Birth to `at` that does
+	// not re-enter Birth (then, both variables being assigned nowhere else, the variable holds what the first copy held
+	// in this iteration, and facts about either are facts about the statement). Otherwise it may hold the statement of
+	// an earlier iteration, about which the facts of this iteration say nothing.
+	fi := w.Info(fn)
+	for _, k := range S.Kept {
+		cb := k.Copy.Block()
+		if cb == S.Birth || cb == at {
+			continue // (same block as the consumer: the consumer checks the order, see resolveCall)
+		}
+		cut := map[edgeKey]bool{}
+		cutInto(fi, S.Birth, cut)
+		cutInto(fi, cb, cut)
+		if S.Birth == at || fi.reachHit([]state{{S.Birth.Index, 0, -1}}, cut, map[int]bool{at.Index: true}) {
+			alt.Other = "the variable " + k.D + " may hold a statement copied in an earlier iteration (the copy at " + w.InstrPos(k.Copy) + " is not on every way to " + alt.Site + ")"
+			return alt
+		}
+	}
 	for l, site := range c08Facts(w, fn, S.Birth, at) {
-		alt.Facts[strings.ReplaceAll(l, S.D, c08STMT)] = site
+		for _, d := range names {
+			l = strings.ReplaceAll(l, d, c08STMT)
+		}
+		alt.Facts[l] = site
 	}
 	// the answers of predicates the frame was handed
 	for i, p := range fn.Params {
@@ -885,6 +1202,11 @@ func (r *c08Resolver) resolve(fn *ssa.Function, v ssa.Value, at *ssa.BasicBlock,
 		return r.resolveCall(fn, x, 0, at, depth, seen)
 	}
 	if S := c08StmtOf(fn, v); S != nil {
+		for _, k := range S.Kept {
+			if k.Copy.Block() == at {
+				return []c08Alt{{Other: "the variable " + k.D + " is assigned in the block in which it is consumed"}}
+			}
+		}
 		return r.stmtAlts(fn, S, at, depth, seen)
 	}
 	return []c08Alt{{Other: desc(v)}}
@@ -899,6 +1221,11 @@ func (r *c08Resolver) resolveCall(fn *ssa.Function, call *ssa.Call, k int, at *s
 	if isCloneMethod(g) {
 		arg := call.Call.Args[0]
 		if S := c08StmtOf(fn, arg); S != nil {
+			for _, k := range S.Kept {
+				if k.Copy.Block() == call.Block() && instrIndex(k.Copy) > instrIndex(call) {
+					return []c08Alt{{Other: "the variable " + k.D + " is cloned before it is assigned", Cloned: true}}
+				}
+			}
 			alts := r.stmtAlts(fn, S, call.Block(), depth, seen)
 			for i := range alts {
 				alts[i].Cloned = true
